@@ -264,6 +264,76 @@ func (c *connection) isDone() bool {
 	}
 }
 
+// ---- the collector's clock -----------------------------------------------------------------------
+
+type frTimer struct {
+	c     *frClock
+	f     func()
+	armed bool
+}
+
+func (t *frTimer) Stop() bool {
+	t.c.mu.Lock()
+	defer t.c.mu.Unlock()
+	was := t.armed
+	t.armed = false
+	return was
+}
+
+func (t *frTimer) Reset(d time.Duration) bool {
+	t.c.mu.Lock()
+	defer t.c.mu.Unlock()
+	was := t.armed
+	t.armed = true
+	return was
+}
+
+type frClock struct {
+	mu     sync.Mutex
+	now    time.Time
+	timers []*frTimer
+}
+
+func (c *frClock) Now() time.Time {
+	c.mu.Lock()
+	defer c.mu.Unlock()
+	if c.now.IsZero() {
+		c.now = time.Unix(1700000000, 0)
+	}
+	return c.now
+}
+
+func (c *frClock) AfterFunc(d time.Duration, f func()) collector.VerifTimer {
+	c.mu.Lock()
+	defer c.mu.Unlock()
+	t := &frTimer{c: c, f: f, armed: true}
+	c.timers = append(c.timers, t)
+	return t
+}
+
+// fireAll advances the clock by a day and runs the callback of every armed timer; returns how many ran
+func (c *frClock) fireAll() int {
+	c.mu.Lock()
+	if c.now.IsZero() {
+		c.now = time.Unix(1700000000, 0)
+	}
+	c.now = c.now.Add(24 * time.Hour)
+	var run []*frTimer
+	for _, t := range c.timers {
+		if t.armed {
+			t.armed = false
+			run = append(run, t)
+		}
+	}
+	c.mu.Unlock()
+	for _, t := range run {
+		t.f()
+	}
+	return len(run)
+}
+
+var fclock *frClock
+
 // ---- engine ---------------------------------------------------------------------------------
 
 var (
@@ -344,13 +414,22 @@ func engFr(a []string) string {
 			return "bad-op"
 		}
 		teardown()
-		p, err := collector.VerifNewCollectorNoDrain(collector.CollectorInput{Protocol: "tcp", MaxBufferSize: 65535, DecodingMode: mode})
+		// a TemplateTTL on a TCP collector is legal and must have no effect; the collector's clock is the harness's:
+		// whatever gets scheduled on it fires at the next `fr tick`
+		fclock = &frClock{}
+		p, err := collector.VerifNewCollectorNoDrainClock(collector.CollectorInput{Protocol: "tcp", MaxBufferSize: 65535, DecodingMode: mode, TemplateTTL: 1}, fclock)
 		if err != nil {
 			return "bad-op"
 		}
 		cp = p
 		msgCh = p.GetMsgChan()
 		return "ok"
+	case "tick":
+		// time passes (more than any lifetime): every timer armed on the collector's clock fires, callbacks run here
+		if len(a) != 1 || cp == nil {
+			return "bad-op"
+		}
+		return fmt.Sprintf("ok %d", fclock.fireAll())
 	case "open":
 		if len(a) != 2 || cp == nil {
 			return "bad-op"
